@@ -769,31 +769,38 @@ func checkAPKSigning(c *Ctx, r *Report, pa *provAnalysis) {
 	// concatenation order
 	n := 0
 	for _, cb := range combine {
-		elems := variadicOrdered(cb.Call.Args[len(cb.Call.Args)-1])
-		var bufs []ssa.Value
-		for _, e := range elems {
-			if mi, ok := e.(*ssa.MakeInterface); ok {
-				e = mi.X
-			}
-			bufs = append(bufs, e)
-		}
+		// the list handed over: a literal, or a slice built by appends - every
+		// sequence it can hold is one of the two legal ones
+		seqs := sliceSequences(cb.Call.Args[len(cb.Call.Args)-1], 0)
 		n++
-		var want []ssa.Value
-		switch len(bufs) {
-		case 2:
-			want = []ssa.Value{ctl.buf, data.buf}
-		case 3:
-			want = []ssa.Value{sig.buf, ctl.buf, data.buf}
-		}
-		ok := want != nil
-		for i := range want {
-			if ok && bufs[i] != want[i] {
+		ok := len(seqs) > 0
+		for _, elems := range seqs {
+			var bufs []ssa.Value
+			for _, e := range elems {
+				if mi, isMI := e.(*ssa.MakeInterface); isMI {
+					e = mi.X
+				}
+				bufs = append(bufs, e)
+			}
+			var want []ssa.Value
+			switch len(bufs) {
+			case 2:
+				want = []ssa.Value{ctl.buf, data.buf}
+			case 3:
+				want = []ssa.Value{sig.buf, ctl.buf, data.buf}
+			}
+			if want == nil {
 				ok = false
+			}
+			for i := range want {
+				if ok && bufs[i] != want[i] {
+					ok = false
+				}
 			}
 		}
 		r.Check(ok, "F12-apk", fmt.Sprintf("apk: segment order of concatenation#%d", n), c.instrPos(cb), "segments must be concatenated [signature,] control, data using the buffers those segments were written into")
 	}
-	r.Floor("F12-apk", n, 2)
+	r.Floor("F12-apk", n, 1)
 	// the signer receives the digest parameter unchanged
 	for _, f := range sortedFuncs(c, c.Reach(fn)) {
 		forEachInstr(f, func(in ssa.Instruction) {
@@ -1388,4 +1395,66 @@ func checkPGPConfigFields(c *Ctx, r *Report) {
 		})
 	}
 	r.Floor("K-pgp-config", n, 1)
+}
+
+// sliceSequences: every sequence of elements the slice value can hold - a
+// literal list, an empty make, appends onto such a value, joined at phis.
+// nil when the value is built in a way that is not modelled.
+func sliceSequences(v ssa.Value, depth int) [][]ssa.Value {
+	if depth > 8 {
+		return nil
+	}
+	switch x := v.(type) {
+	case *ssa.Const:
+		if x.IsNil() {
+			return [][]ssa.Value{{}}
+		}
+		return nil
+	case *ssa.MakeSlice:
+		if k, ok := x.Len.(*ssa.Const); ok && k.Value != nil && k.Int64() == 0 {
+			return [][]ssa.Value{{}}
+		}
+		return nil
+	case *ssa.Slice:
+		// make([]T, 0, constant) is an array allocation sliced to length 0
+		if k, ok := x.High.(*ssa.Const); ok && x.Low == nil && k.Value != nil && k.Int64() == 0 {
+			if al, isAl := x.X.(*ssa.Alloc); isAl && al.Comment == "makeslice" {
+				return [][]ssa.Value{{}}
+			}
+		}
+		if x.Low != nil || x.High != nil {
+			return nil
+		}
+		elems := variadicOrdered(x)
+		if len(elems) == 0 {
+			return nil
+		}
+		return [][]ssa.Value{elems}
+	case *ssa.Phi:
+		var out [][]ssa.Value
+		for _, e := range x.Edges {
+			s := sliceSequences(e, depth+1)
+			if s == nil {
+				return nil
+			}
+			out = append(out, s...)
+		}
+		return out
+	case *ssa.Call:
+		b, ok := x.Call.Value.(*ssa.Builtin)
+		if !ok || b.Name() != "append" || len(x.Call.Args) != 2 {
+			return nil
+		}
+		base := sliceSequences(x.Call.Args[0], depth+1)
+		if base == nil {
+			return nil
+		}
+		add := variadicOrdered(x.Call.Args[1])
+		var out [][]ssa.Value
+		for _, s := range base {
+			out = append(out, append(append([]ssa.Value{}, s...), add...))
+		}
+		return out
+	}
+	return nil
 }
